@@ -42,7 +42,7 @@ func c17Contents() [][]mockq.Rec {
 		mk(`{"a":{"b":[1,2`, deep, deepArr, `{"a":"b","a":{"a":"b"},"v":1e999,"":""}`, `{"_entry":5,"x y":"z"}`, `{"_entry":"{\"_entry\":1}","a":"\ud800"}`, `[1,2,3]`, `null`, `{"a":1}{"a":2}`, `{"tags":["a",null],"a":[null]}`, `{"a":{"b":[{"c":null},null,[null]]}}`),
 		mk(`a="x`, `==`, `a=b=c`, `"`, `a= b= =c`, "a=\x00 b=\xff", `k="\xzz"`, `a="unterminated \"`, strings.Repeat("k=v ", 500)),
 		mk(`v=1e999 d=99999999h sz=99999999999999999999EB`, `v=-0 d=-1ns sz=-1KB`, `v=9223372036854775808 d=9223372036854775807ns sz=18446744073709551616b`, `v=NaN d=NaN sz=NaN`, `v=Inf d=+Inf sz=0x10`, `v=1e-999 d=0.0000000001ns sz=1.5.5MB`, `{"v":1e999,"d":"9e99h","sz":"1e99gb","ip":"999.999.999.999"}`),
-		mk(`GET /a 200 10.0.0.1 ::ffff:1.2.3.4 1.2.3.4.5.6 ::::::`, `ip=::1 ip2=1::1::1 addr=256.1.1.1`, `a b c d e f`, `[x] "y"`, `<a> <b>`),
+		mk(`GET /a 200 10.0.0.1 ::ffff:1.2.3.4 1.2.3.4.5.6 ::::::`, `ip=::1 ip2=1::1::1 addr=256.1.1.1`, `a b c d e f`, `[x] "y"`, `<a> <b>`, `x 1`, `9.`, `1.2`, `:`, `f:`),
 		mk(veryDeep, veryDeepArr, `{"_entry":`+veryDeepArr+`}`),
 	}
 }
@@ -260,6 +260,12 @@ func c17Run(r *vkit.Run) {
 		`quantile_over_time(99, {} | unwrap v [10s])`, `quantile_over_time(-1, {} | unwrap v [10s]) by ()`, `stddev_over_time({} | unwrap duration(lat) [10s])`, `sum_over_time({} | unwrap bytes(v) [10s])`, `rate({} | unwrap v [1ns])`, `count_over_time({}[0s])`,
 		`topk(100000000, count_over_time({}[10s]))`, `bottomk(1, sum_over_time({} | logfmt | unwrap v [10s])) / 0`, `count_over_time({}[10s]) % 0 ^ 0.5`, `sort(count_over_time({}[10s]) == bool 1)`, `vector(1e999) ^ vector(1e999)`, `-0`,
 		`label_replace(count_over_time({}[10s]), "a", "$9", "a", "(.*)")`, `label_replace(rate({}[1s]), "", "", "", "")`, `absent_over_time({}[10s])`, `rate_counter({} | unwrap v [10s])`,
+		`quantile_over_time(1, {} | unwrap v [10s]) by (a)`, `quantile_over_time(0, {} | unwrap v [10s]) without (v, lat, msg)`, `quantile_over_time(1, {} | logfmt | unwrap v [10s]) by (a)`,
+		`{} |= ip("1.2.3.4") != ip("10.0.0.0/8")`, `{} | logfmt | ip == ip("1.2.3.4")`, `{} != ip("::1")`,
+		// empty vectors at every level
+		`vector(1) unless vector(1)`, `vector(1) and (vector(2) unless vector(2))`, `sum(vector(1) unless vector(1))`, `topk(1, vector(1) unless vector(1))`, `sort(vector(1) unless vector(1))`,
+		`count_over_time({nosuch="x"}[10s])`, `sum(count_over_time({nosuch="x"}[10s])) / sum(count_over_time({nosuch="y"}[10s]))`, `quantile_over_time(0.5, {nosuch="x"} | unwrap v [10s]) by (a)`,
+		`count_over_time({}[10s]) > 100000`, `(count_over_time({}[10s]) > 100000) or vector(0)`, `{nosuch="x"}`, `{} |= "no such needle at all"`,
 	} {
 		visit(q)
 	}
